@@ -60,11 +60,12 @@ class FuncRef:
 
 
 class Ctx:
-    def __init__(self, repo, module, cls=None, env=None):
+    def __init__(self, repo, module, cls=None, env=None, subst=None):
         self.repo = repo
         self.module = module
         self.cls = cls
         self.env = env or {}
+        self.subst = subst or {}    # normalised expression text -> value
 
 
 _BIN = {
@@ -82,6 +83,11 @@ def fold(expr, ctx, depth=0):
     repo = ctx.repo
     if isinstance(expr, ast.Constant):
         return expr.value
+    if ctx.subst and isinstance(expr, (ast.Attribute, ast.Name, ast.Call,
+                                       ast.Subscript)):
+        key = ast.unparse(expr)
+        if key in ctx.subst:
+            return ctx.subst[key]
     if isinstance(expr, ast.Tuple):
         return tuple(fold(e, ctx, depth + 1) for e in expr.elts)
     if isinstance(expr, ast.List):
@@ -162,6 +168,15 @@ def fold(expr, ctx, depth=0):
             raise Unfoldable(str(ex))
     if isinstance(expr, ast.Call):
         return _fold_call(expr, ctx, depth)
+    if isinstance(expr, ast.BoolOp):
+        val = None
+        for v in expr.values:
+            val = fold(v, ctx, depth + 1)
+            if isinstance(expr.op, ast.And) and not val:
+                return val
+            if isinstance(expr.op, ast.Or) and val:
+                return val
+        return val
     if isinstance(expr, ast.IfExp):
         t = fold(expr.test, ctx, depth + 1)
         return fold(expr.body if t else expr.orelse, ctx, depth + 1)
@@ -186,6 +201,10 @@ def fold(expr, ctx, depth=0):
                 return a in b
             if isinstance(op, ast.NotIn):
                 return a not in b
+            if isinstance(op, ast.Is):
+                return a is b or (isinstance(a, EnumVal) and a == b)
+            if isinstance(op, ast.IsNot):
+                return not (a is b or (isinstance(a, EnumVal) and a == b))
         except Exception as ex:
             raise Unfoldable(str(ex))
     if isinstance(expr, (ast.DictComp, ast.ListComp, ast.SetComp,
@@ -279,7 +298,7 @@ def _fold_comp(expr, ctx, depth):
     for item in it:
         env = dict(ctx.env)
         _bind(gen.target, item, env)
-        sub = Ctx(ctx.repo, ctx.module, ctx.cls, env)
+        sub = Ctx(ctx.repo, ctx.module, ctx.cls, env, ctx.subst)
         if all(fold(c, sub, depth + 1) for c in gen.ifs):
             if isinstance(expr, ast.DictComp):
                 out_list.append((_hashable(fold(expr.key, sub, depth + 1)),
